@@ -1,7 +1,7 @@
 import SqlObjVerif.Model.Hub
 import SqlObjVerif.Model.DrvUtil
 /-! Driver for C08 (stateless).  Rows `1=10 2=20`; caller = thread 1 in hub configuration `cfg` (see `worldOf`).
-    Request: `<cfg> <autoCommit 1|0|X> <steps> <raise>` with steps `c<k>=<v>`, `u<k>=<v>`, `d<k>` joined by `,` (or `-`), raise `-` or
+    Request: `<cfg> <autoCommit 1|0|X> <steps> <raise>` with steps `c<k>=<v>`, `u<k>=<v>`, `d<k>`, `U<k>=<v>`, `D<k>` (through pre-loaded instances) joined by `,` (or `-`), raise `-` or
     `<n>:<E|K>:<id>`.
     Answer: `<outcome> | db <rows> | hub <t>:<level>:<conn>… | inuse a,b,c zombies n | collected inuse a,b,c db <rows>`. -/
 open SqlObjVerif SqlObjVerif.Hub SqlObjVerif.DrvUtil
@@ -25,6 +25,10 @@ def parseStep (s : String) : Option Step :=
     | [k, v] => do pure (.update (← k.toNat?) (← v.toInt?))
     | _ => none
   | 'd' :: rest => do pure (.delete (← (String.ofList rest).toNat?))
+  | 'U' :: rest => match (String.ofList rest).splitOn "=" with
+    | [k, v] => do pure (.updateInst (← k.toNat?) (← v.toInt?))
+    | _ => none
+  | 'D' :: rest => do pure (.deleteInst (← (String.ofList rest).toNat?))
   | _ => none
 
 def parseSteps (s : String) : Option (List Step) :=
